@@ -7,6 +7,7 @@ with what NumPy returns for the same Python expression.  A mismatch is a CHECKER
 Run on every check (about a second)."""
 import itertools, fractions, random
 import numpy as np
+import z3
 from .core import *
 from .interp import Source
 from .ndarr import NDInterp, NDArr
@@ -60,6 +61,8 @@ _EXPRS.append(('np.pad(a, ((7, 5), (0, 0)), mode="wrap")', (3, 2), None))
 _EXPRS.append(('np.pad(a > 0, ((1, 1), (2, 0)), mode="constant")', (3, 2), None))
 
 _STORES = [
+    ('t = np.zeros_like(a)\nm = b != b[1]\nt[m] = np.concatenate([a[0:1], a[2:5]])\nr = t', (5,), (5,)),
+    ('idx = np.where(np.invert(b != b[1]))[0]\nr = np.concatenate(([-1], idx, [5])) * 1.0', (5,), (5,)),
     # (statements executed on a copy of a, b ; result name)
     ('t = a.copy()\nt[1:, ..., 0] = b\nr = t', (3, 2, 2), (2, 2)),
     ('t = a.copy()\nt[..., 1] += b\nr = t', (3, 2, 2), (3, 2)),
@@ -108,6 +111,8 @@ def run(seed=0):
                     bad.append(f'{text}: model forked / raised: {[p.outcome[:2] for p in paths]}')
                     continue
                 got = paths[0].outcome[1]
+                if isinstance(got, Vec):
+                    got = np.array([float(x) if not isinstance(x, Sym) else float(z3.simplify(x.t).as_fraction()) for x in got.elems])
                 got = got.to_numpy(E) if isinstance(got, NDArr) else np.array(got)
                 ns = {'np': np, 'a': a.copy(), 'b': None if b is None else b.copy(), 'v': v}
                 if kind == 'expr':
